@@ -10,8 +10,17 @@ import recgen
 import values
 
 LEAN_MODULE = "Kio.Props.C17"
-THEOREMS = ["Kio.C17.layout", "Kio.C17.independent_decode", "Kio.C17.crc_covers",
-            "Kio.C17.spec_roundtrip", "Kio.C17.crc_check_value"]
+THEOREMS = [
+    "Kio.C17.float_exact",
+    "Kio.C17.layout",
+    "Kio.C17.complete",
+    "Kio.C17.spec_roundtrip",
+    "Kio.C17.independent_decode",
+    "Kio.C17.crc_covers",
+    "Kio.C17.crc_check_value",
+    "Kio.C17.shipped_truncation_witness",
+    "Kio.C17.current_repaired",
+]
 
 
 def run(ctx):
